@@ -475,6 +475,15 @@ class Interp:
 
     def read_attr(self, fr: Frame, v: Value, attr: str, node: Optional[ast.AST] = None, for_call: bool = False) -> Value:
         out: Set[Atom] = set()
+        if attr == "__dict__":  # same object state as vars(x)
+            for a in v:
+                if a[0] == "src":
+                    out.add(self.src_ext(a, ("a", "__dict__")))
+                elif a[0] == "der" and node is not None:
+                    out |= self.der(("vars", self.site(fr, node, "vars"), fr.ctx), frozenset([a]))
+                else:
+                    out.add(a)
+            return frozenset(out)
         for a in v:
             k = a[0]
             if k == "obj":
@@ -1400,7 +1409,32 @@ class Interp:
         if short == "cast" and len(args) >= 2:
             return args[1]
         if name == "copy.copy":
-            return self.shallow_copy(fr, node, a0)
+            # the copy protocol: a class's own __copy__ decides what copy() returns (e.g. `return self`)
+            out_c: Set[Atom] = set()
+            plain: Set[Atom] = set()
+            for a in a0:
+                cq = self.obj_class(a) if a[0] == "obj" else None
+                clss = [self.prog.cls(cq)] if cq else (self.src_classes(a) if a[0] == "src" else [])
+                cm = [m for m in (self._find_method(ci, "__copy__") for ci in clss) if m is not None]
+                if cm:
+                    for m in cm:
+                        out_c |= self.call_function(fr, m, [frozenset([a])], {}, node)
+                    if len(cm) < len(clss):
+                        plain.add(a)
+                else:
+                    plain.add(a)
+            return vjoin(frozenset(out_c), self.shallow_copy(fr, node, frozenset(plain)) if plain else EMPTY)
+        if name == "builtins.vars" and args:
+            # vars(x) is x's own attribute dictionary: writing to it writes x; handing it out hands out x's state
+            out_v: Set[Atom] = set()
+            for a in a0:
+                if a[0] == "src":
+                    out_v.add(self.src_ext(a, ("a", "__dict__")))
+                elif a[0] == "der":
+                    out_v |= self.der(("vars", self.site(fr, node, "vars"), fr.ctx), frozenset([a]))
+                else:
+                    out_v.add(a)
+            return frozenset(out_v)
         if name == "dataclasses.replace":
             out: Set[Atom] = set()
             for a in a0:
